@@ -33,6 +33,11 @@ def skipdiamond(**k):
     return [G("G0", ["A", "B", "C"], [("A", "B"), ("A", "C"), ("C", "B")], **k)]
 
 
+def wshape(**k):
+    # two sources X, W; Y is a child of both, Z only of X; X lists Z before Y
+    return [G("G0", ["X", "W", "Y", "Z"], [("X", "Z"), ("X", "Y"), ("W", "Y")], **k)]
+
+
 def cond2(p=(0.5, 0.5), **k):
     return [G("G0", ["C", "a", "b", "J"], [("C", "a"), ("C", "b"), ("a", "J"), ("b", "J")],
               cond={"C": {"a": p[0], "b": p[1]}}, terminal=["J"], **k)]
